@@ -58,6 +58,13 @@ func (g *Graph) Dijkstra(src Vertex) (distTo map[interface{}]int, edgeTo map[int
 
 			v := queueItem[vhash]
 
+			// A sum that doesn't fit an int is farther away than any
+			// distance we can report (this also covers U itself being
+			// unreachable, i.e. infinitely far away).
+			if weight > maxInt-u.distance {
+				continue
+			}
+
 			// tempDistance <- distance[U] + edge_weight(U, V)
 			tempDistance := u.distance + weight
 
